@@ -347,6 +347,14 @@ func (s *Store[H]) DeleteRange(ctx context.Context, from, to uint64) error {
 		)
 	}
 
+	if updateHead && !updateTail {
+		// Recede the head below the range before deleting anything, s.t. a crash or failure
+		// in the middle of the deletion never leaves the persisted head above a hole.
+		if err := s.setHead(ctx, s.ds, from-1); err != nil {
+			return fmt.Errorf("header/store: setting head to %d: %w", from-1, err)
+		}
+	}
+
 	// Delete the headers without automatic tail updates
 	actualTo, _, deleteErr := s.deleteRangeRaw(ctx, from, to)
 	if wipe && deleteErr == nil {
